@@ -18,6 +18,7 @@ func init() {
 		ruleF4(c, "C05.F4")
 		ruleS3(c, "C05.F5")
 		ruleF6(c, "C05.F6")
+		ruleF8(c, "C05.F8")
 		ruleW1(c, "C05.F7")
 		ruleR3(c, "C05.R3")
 		ruleR6(c, "C05.R6")
@@ -184,5 +185,68 @@ func ruleF6(c *Ctx, id string) {
 			}
 		}
 		R.Check(ok, id, fmt.Sprintf("shrinker.%s|waits in a loop", name), P.Pos(f.Pos()), "Cond.Wait is inside a loop that re-tests the thread count", "wait in a cycle", "wait not in a loop: a spurious wake-up ends the wait early")
+	}
+}
+
+// ruleF8: index blocks go back with their first slot.  indshrink frees the
+// slots of an indirect tree from the end towards the start and tells its
+// caller that the (sub)tree root itself can be freed when the slot just
+// handled was the first one (off == 0 && ind == 0).
+func ruleF8(c *Ctx, id string) {
+	V, P, R := c.V, c.P, c.R
+	R.Rule(id, "index blocks are released with their first slot: indshrink answers 'root is free' (returns root) on every path on which the slot handled is the first one, and every caller frees the root it is told about", 3)
+	ind := c.fn(id, "inode.(*Inode).indshrink")
+	freeIndex := c.fn(id, "inode.(*Inode).freeIndex")
+	if ind == nil || freeIndex == nil || V.Shrink == nil {
+		return
+	}
+	R.Analysed[FuncName(ind)] = true
+	root, bn := ssa.Value(ind.Params[2]), ssa.Value(ind.Params[4])
+	// edges on which the slot is known not to be the first one: (bn / d) != 0 or (bn % d) != 0
+	notFirst := condEdge(ind, func(cd Cond) (bool, bool) {
+		bo, ok := stripConv(cd.X).(*ssa.BinOp)
+		k, isk := constInt(cd.Y)
+		if !ok || !isk || k != 0 || (bo.Op != token.QUO && bo.Op != token.REM) || stripConv(bo.X) != bn {
+			return false, false
+		}
+		switch cd.Op {
+		case token.NEQ:
+			return true, true
+		case token.EQL:
+			return true, false
+		}
+		return false, false
+	})
+	noRoot := cmpZeroEdge(ind, map[ssa.Value]bool{root: true})
+	n := 0
+	for _, b := range ind.Blocks {
+		r, ok := b.Instrs[len(b.Instrs)-1].(*ssa.Return)
+		if !ok || len(r.Results) != 1 {
+			continue
+		}
+		if k, isk := constInt(r.Results[0]); !isk || k != 0 {
+			continue
+		}
+		n++
+		// 'nothing to free' is answered only without a root or when the slot is not the first one
+		okR := everyPathTakes(ind, b, notFirst, noRoot)
+		R.Check(okR, id, fmt.Sprintf("inode.indshrink|'keep the root' answer #%d", n), P.Pos(r.Pos()), "indshrink returns NULLBNUM only when there is no root or the slot handled is not the first one of the tree", "every path to this return takes root == 0, off != 0 or ind != 0", "a path answers 'keep the root' although the first slot was just handled (e.g. a hole there): the index block is never freed")
+	}
+	if n == 0 {
+		R.Fail(id, "inode.indshrink|answers", P.Pos(ind.Pos()), "indshrink has a 'keep the root' answer", "no constant-0 return found")
+	}
+	// callers free the root they are told about
+	for _, fn := range []*ssa.Function{V.Shrink, ind} {
+		for _, sc := range scopesOf(fn) {
+			for _, call := range P.CallsIn(sc.Fn, funcIs(ind)) {
+				cv := call.(*ssa.Call)
+				zero := cmpZeroEdge(sc.Fn, fwdClosure([]ssa.Value{cv}, false))
+				isFree := func(in ssa.Instruction) bool {
+					return callTo(freeIndex)(in) || (callTo(V.FreeBlock)(in) && stripConv(argN(in, 0)) == ssa.Value(cv))
+				}
+				ok := MustAfterE(sc.Fn, isFree, nil, zero)(call)
+				R.Check(ok, id, FuncName(fn)+"|frees the root indshrink reports", P.Pos(call.Pos()), "on every path on which indshrink returned a block, that block is freed (FreeBlock / freeIndex)", "must-follow except on the result == 0 edge", "a root reported as free is not freed: the index block is leaked")
+			}
+		}
 	}
 }
